@@ -94,9 +94,22 @@ func (c01) RunBatch(ctx *core.Ctx, batch int) {
 type c01Result struct {
 	ticks    uint64
 	accepted bool
+	violated bool
 }
 
 func c01Check(ctx *core.Ctx, kind, in string, big bool) (res c01Result) {
+	vio0 := len(ctx.Res.Violations) + len(ctx.ReplayVio)
+	var vioCount0 int64
+	for _, n := range ctx.Res.VioCount {
+		vioCount0 += n
+	}
+	defer func() {
+		var n1 int64
+		for _, n := range ctx.Res.VioCount {
+			n1 += n
+		}
+		res.violated = n1 != vioCount0 || len(ctx.Res.Violations)+len(ctx.ReplayVio) != vio0
+	}()
 	ntok, _ := mon.CountTokens(in)
 	hasPct := strings.Contains(in, "%")
 	for _, df := range []string{"", "df"} {
@@ -213,6 +226,21 @@ func c01Scale(ctx *core.Ctx, fam gen.Family) {
 		if r.accepted {
 			ctx.Count("scale_cases_accepted", 1)
 		}
+		if r.violated {
+			// a budget overrun or panic at this size: larger sizes would only repeat it, slowly
+			ctx.Res.Notes = append(ctx.Res.Notes, fmt.Sprintf("%s: stopped at n=%d after a violation", fam.Name, n))
+			return
+		}
+		if k := len(pts); k >= 2 && pts[k-2].ticks > 0 && tickEnabled {
+			// growth between consecutive doublings: a factor above 12 is an exponent above 3.58
+			if g := pts[k-1].ticks / pts[k-2].ticks; g > 12 && n >= 256 {
+				ctx.Violate("c01:superpolynomial-steps:"+fam.Name, "family %s: logical steps grow by a factor %.1f when the size doubles from %d to %d (%.0f -> %.0f ticks)", fam.Name, g, pts[k-2].n, n, pts[k-2].ticks, pts[k-1].ticks)
+				return
+			}
+		}
+	}
+	if len(pts) < 4 {
+		return
 	}
 	slope := func(a, b pt, f func(pt) float64) float64 {
 		if f(a) <= 0 || f(b) <= 0 {
